@@ -63,17 +63,21 @@ def scenarios(pid, thorough):
 def run(ctx, pid):
     thorough = ctx.tier == 'thorough'
     scen = scenarios(pid, thorough)
+    scale = sandbox.time_scale()
     rc, data, log = sandbox.run_driver('harness.poolreal_main', [ctx.tier, json.dumps(scen)],
-                                       timeout=1500 if thorough else 500)
+                                       timeout=(1500 if thorough else 500) * scale,
+                                       env={'VERIF_TIME_SCALE': str(scale)})
     if rc != 0 or data is None:
         raise RuntimeError('real-pool driver failed (rc=%s): %s' % (rc, log[-1500:]))
     forms = FORMULAS[pid]
+    consts = dict(CONSTS, Slack10=str(int(50 * scale)))
+    ctx.note('real_time_slack_s', 5 * scale)
     ctx.traces += len(data)
     ctx.replay_steps += len(data)
     ctx.note('real_pool_scenarios', len(data))
     ctx.sample({'real_pool_scenario': data[0]['scenario'],
                 'observed': {k: v for k, v in data[0].items() if k != 'scenario'}}, limit=10)
-    _, verdicts = monitor.check('PoolObs', data, invariants=forms, constants=CONSTS)
+    _, verdicts = monitor.check('PoolObs', data, invariants=forms, constants=consts)
     seen = set()
     for v in verdicts:
         d = data[v['trace']]
@@ -85,7 +89,7 @@ def run(ctx, pid):
             d['scenario'], v['name'], {k: d[k] for k in d if k != 'scenario'}),
             'observed:poolreal:%s:%s' % (v['name'], d['scenario']['kind']), replay=d)
     for tol, fs in KNOWN.get(pid, ()):
-        c2 = dict(CONSTS, **{tol: 'FALSE'})
+        c2 = dict(consts, **{tol: 'FALSE'})
         _, verdicts = monitor.check('PoolObs', data, invariants=[f for f in fs if f in forms], constants=c2)
         for v in verdicts[:1]:
             d = data[v['trace']]
